@@ -26,6 +26,11 @@ pub enum Family {
     /// ephemeral chains whose final consumers have a second, failing upstream: the chain is re-executed
     /// (changed outputs) while the consumer is upstream-failed, then evaluated again
     EphFail,
+    /// random projects whose edits include a job keeping its id but changing between Output and Ephemeral
+    KindFlip,
+    /// a multi-output job whose parts change independently, with consumers that each read other parts
+    /// (production names: a consumer is only affected by the parts it reads)
+    MultiPart,
 }
 impl Family {
     pub fn parse(s: &str) -> Family {
@@ -38,6 +43,8 @@ impl Family {
             "abortoffered" => Family::AbortOffered,
             "rename" => Family::Rename,
             "ephfail" => Family::EphFail,
+            "kindflip" => Family::KindFlip,
+            "multipart" => Family::MultiPart,
             _ => panic!("unknown family {}", s),
         }
     }
@@ -51,6 +58,8 @@ impl Family {
             Family::AbortOffered => "abortoffered",
             Family::Rename => "rename",
             Family::EphFail => "ephfail",
+            Family::KindFlip => "kindflip",
+            Family::MultiPart => "multipart",
         }
     }
 }
@@ -65,10 +74,14 @@ pub struct ChainCfg {
     pub inject: bool,
     pub next_job_twin: bool,
     pub verbose: bool,
+    /// record structured call traces of the primary evaluations (PyO3 boundary replay)
+    pub export: bool,
+    /// chains of 8-20 evaluations instead of 2-7
+    pub long: bool,
 }
 impl ChainCfg {
     pub fn new(conv: Conv, family: Family, maxn: usize) -> Self {
-        ChainCfg { conv, family, maxn, twins: true, misuse: Misuse::Off, inject: false, next_job_twin: false, verbose: false }
+        ChainCfg { conv, family, maxn, twins: true, misuse: Misuse::Off, inject: false, next_job_twin: false, verbose: false, export: false, long: false }
     }
     pub fn replay_args(&self, seed: u64) -> Vec<String> {
         let mut v = vec![
@@ -89,6 +102,9 @@ impl ChainCfg {
         if self.next_job_twin {
             flags.push("nextjob");
         }
+        if self.long {
+            flags.push("long");
+        }
         match self.misuse {
             Misuse::Off => {}
             Misuse::Every => flags.push("misuse-every"),
@@ -103,6 +119,7 @@ impl ChainCfg {
                 "notwins" => self.twins = false,
                 "inject" => self.inject = true,
                 "nextjob" => self.next_job_twin = true,
+                "long" => self.long = true,
                 "misuse" => self.misuse = Misuse::Random(0.3),
                 "misuse-every" => self.misuse = Misuse::Every,
                 "-" | "" => {}
@@ -124,6 +141,8 @@ pub struct Project {
     pub tainted: BTreeSet<String>,
     /// what the driver saw each job consume / produce at its last success (ground truth)
     pub shadow: Shadow,
+    /// kind under which each job id last succeeded (coverage of kind changes under the same id)
+    pub kind_at_record: HashMap<String, JobKind>,
 }
 
 fn rand_kind(rng: &mut Rng) -> JobKind {
@@ -146,6 +165,7 @@ impl Project {
             conv,
             tainted: BTreeSet::new(),
             shadow: Shadow::default(),
+            kind_at_record: HashMap::new(),
         };
         p.g.edge_order_seed = edge_order_seed;
         p
@@ -157,10 +177,11 @@ impl Project {
             Family::EphFail => p.motif_ephchain(rng, true),
             Family::ValidatedEph => p.motif_validated_eph(rng),
             Family::LateFail => p.motif_latefail(rng),
+            Family::MultiPart => p.motif_multipart(rng),
             _ => {}
         }
         let extra = match cfg.family {
-            Family::Random | Family::FailHist | Family::AbortOffered | Family::Rename => 1 + rng.below(cfg.maxn),
+            Family::Random | Family::FailHist | Family::AbortOffered | Family::Rename | Family::KindFlip => 1 + rng.below(cfg.maxn),
             Family::EphFail => rng.below(3),
             _ => rng.below(4),
         };
@@ -248,6 +269,45 @@ impl Project {
             let a3 = self.add_fixed(rng, JobKind::Always, &[], 1000);
             let mid = chain[1].clone();
             self.add_fixed(rng, JobKind::Output, &[mid.as_str(), a3.as_str()], 1000);
+        }
+    }
+    /// A1, A2 (Always) -> U (Output or Ephemeral with 2-3 outputs, small domain) -> consumers that each read one or
+    /// two of U's parts (and sometimes a second input)
+    fn motif_multipart(&mut self, rng: &mut Rng) {
+        let a1 = self.add_fixed(rng, JobKind::Always, &[], 1000);
+        let a2 = self.add_fixed(rng, JobKind::Always, &[], 1000);
+        let rank = self.next_rank;
+        self.next_rank += 1;
+        let base = format!("J{}", rank);
+        let mut outs = vec![base.clone(), format!("{}b", base)];
+        if rng.chance(0.5) {
+            outs.push(format!("{}c", base));
+        }
+        let kind = if rng.chance(0.6) { JobKind::Output } else { JobKind::Ephemeral };
+        let mut inputs = BTreeSet::new();
+        inputs.insert(self.g.nodes.iter().find(|n| n.base == a1).unwrap().outs[0].clone());
+        inputs.insert(self.g.nodes.iter().find(|n| n.base == a2).unwrap().outs[0].clone());
+        self.g.nodes.push(Node { id: String::new(), base: base.clone(), outs: outs.clone(), inputs, kind, ver: 0, dom: *rng.pick(&[2u64, 3, 3]), rank });
+        self.g.rebuild();
+        let k = 2 + rng.below(3);
+        for _ in 0..k {
+            let rank = self.next_rank;
+            self.next_rank += 1;
+            let cb = format!("J{}", rank);
+            let mut inputs = BTreeSet::new();
+            inputs.insert(rng.pick(&outs).clone());
+            if rng.chance(0.3) {
+                inputs.insert(rng.pick(&outs).clone());
+            }
+            if rng.chance(0.3) {
+                inputs.insert(self.g.nodes.iter().find(|n| n.base == a1).unwrap().outs[0].clone());
+            }
+            let ck = if rng.chance(0.8) { JobKind::Output } else { JobKind::Ephemeral };
+            self.g.nodes.push(Node { id: String::new(), base: cb.clone(), outs: vec![cb.clone()], inputs, kind: ck, ver: 0, dom: 1000, rank });
+            self.g.rebuild();
+            if ck == JobKind::Ephemeral {
+                self.add_fixed(rng, JobKind::Output, &[cb.as_str()], 1000);
+            }
         }
     }
     /// I -> E -> {C1..Ck} consumers of mixed kinds; E's output domain small or large
@@ -367,7 +427,7 @@ impl Project {
     pub fn edit(&mut self, rng: &mut Rng, family: Family) -> Vec<String> {
         let mut desc = vec![];
         let nedits = match family {
-            Family::EphChain | Family::ValidatedEph | Family::LateFail | Family::EphFail => 1 + rng.below(2),
+            Family::EphChain | Family::ValidatedEph | Family::LateFail | Family::EphFail | Family::MultiPart => 1 + rng.below(2),
             Family::Rename => 1 + rng.below(3),
             _ => rng.below(3),
         };
@@ -380,6 +440,14 @@ impl Project {
                 Family::ValidatedEph => *rng.pick(&[0, 0, 2, 2, 2, 2, 3, 3, 4, 4, 6, 7]),
                 Family::LateFail => *rng.pick(&[0, 0, 0, 2, 2, 5]),
                 Family::Rename => *rng.pick(&[0, 2, 3, 4, 6, 7, 8, 8, 8, 9, 9, 9]),
+                Family::MultiPart => *rng.pick(&[0, 0, 0, 0, 0, 0, 2, 2, 3, 4, 8, 9]),
+                Family::KindFlip => {
+                    if rng.chance(0.35) {
+                        10
+                    } else {
+                        rng.below(if multi { 10 } else { 8 })
+                    }
+                }
                 _ => rng.below(if multi { 10 } else { 8 }),
             };
             match kind {
@@ -462,6 +530,23 @@ impl Project {
                         }
                     }
                 }
+                10 => {
+                    // the same job id becomes a job of the other file-producing kind (FileGeneratingJob <-> TempFileGeneratingJob)
+                    let cand: Vec<usize> = (0..self.g.nodes.len()).filter(|i| self.g.nodes[*i].kind != JobKind::Always).collect();
+                    if !cand.is_empty() {
+                        let i = *rng.pick(&cand);
+                        let old = self.g.nodes[i].kind;
+                        let k = if old == JobKind::Output { JobKind::Ephemeral } else { JobKind::Output };
+                        self.g.nodes[i].kind = k;
+                        if k == JobKind::Output {
+                            // a temp file that may have been left behind is not trusted: start without the file
+                            for o in self.g.nodes[i].outs.clone() {
+                                self.world.borrow_mut().disk.remove(&o);
+                            }
+                        }
+                        desc.push(format!("kindflip {} {:?}->{:?}", self.g.nodes[i].id, old, k));
+                    }
+                }
                 8 => {
                     // gain an output
                     let i = rng.below(self.g.nodes.len());
@@ -512,7 +597,8 @@ pub fn random_plan(rng: &mut Rng, g: &Graph, family: Family, step: usize) -> Pla
         Family::Rename => (0.4, 0.3, 0.25),
         Family::EphChain => (0.25, 0.2, 0.15),
         Family::EphFail => (0.6, 0.2, 0.15),
-        Family::Random => (0.4, 0.25, 0.2),
+        Family::Random | Family::KindFlip => (0.4, 0.25, 0.2),
+        Family::MultiPart => (0.3, 0.2, 0.15),
     };
     if rng.chance(pf) {
         for n in &g.nodes {
@@ -548,6 +634,8 @@ pub struct EvalSummary {
 }
 
 pub struct ChainOutcome {
+    /// one JSON object per primary evaluation (only with ChainCfg.export)
+    pub export: Vec<String>,
     pub summaries: Vec<EvalSummary>,
     pub violated: bool,
 }
@@ -617,7 +705,16 @@ pub fn judge_offline(g: &Graph, h_in: &History, disk_after: &BTreeMap<String, St
             );
             viols.push(mk("C04", "executed-set-differs", sig, format!("executed {:?} but expected {:?} (extra {:?}, missing {:?})", started, exp.executed, extra, missing)));
         }
-    } else {
+    }
+    // ---- C15: a job all of whose records are judged unaltered, some of them textually different, is executed
+    if !exp.ambiguous && mode == CmpMode::Stamped {
+        for j in &started {
+            if !exp.executed.contains(j) && exp.uptodate.get(j).cloned().unwrap_or(false) && exp.textdiff.contains(j) {
+                viols.push(mk("C15", "executed-although-judged-unaltered", format!("{}", kc(j)), format!("{} was executed although it is up to date: its records differ from the upstreams' current ones only textually, the configured comparison judges them unaltered", j)));
+            }
+        }
+    }
+    if !no_fail {
         for j in &started {
             if !exp.ambiguous && !exp.executed.contains(j) {
                 viols.push(mk("C04", "executed-outside-necessary-set", format!("{}", kc(j)), format!("with faults: executed {} which is not in the necessary set {:?}", j, exp.executed)));
@@ -677,10 +774,42 @@ pub fn judge_offline(g: &Graph, h_in: &History, disk_after: &BTreeMap<String, St
             }
         }
     }
+    // ---- C16: the not-yet-started dependants of a rejected Ephemeral (direct, or through jobs thereby prevented
+    // from running) end upstream-failed, and none of them is offered after the rejection
+    if !rep.aborted && !rep.rejected.is_empty() {
+        for r in &rep.rejected {
+            let rej_at = rep.bad_since.get(r).cloned().unwrap_or(usize::MAX);
+            let mut below: BTreeSet<String> = BTreeSet::new();
+            let mut stack = vec![r.clone()];
+            while let Some(x) = stack.pop() {
+                for e in g.downs(&x) {
+                    // a dependant that was started is not "prevented from running": what is below it is its own business
+                    if below.insert(e.down.clone()) && !started.contains(&e.down) {
+                        stack.push(e.down.clone());
+                    }
+                }
+            }
+            for j in &below {
+                if g.useless_ephemeral(j) {
+                    continue;
+                }
+                if started.contains(j) {
+                    if rep.first_offer.get(j).map(|o| *o > rej_at).unwrap_or(false) {
+                        viols.push(mk("C16", "dependant-of-rejected-ephemeral-offered", format!("{}", kc(j)), format!("{} depends on {} (rejected: changed output) and was first offered after the rejection", j, r)));
+                    }
+                } else if !rep.upstream_failed.contains(j) && !rep.failed_q.contains(j) {
+                    viols.push(mk("C16", "dependant-of-rejected-ephemeral-not-upstream-failed", format!("{}:{}", kc(j), rep.disposition(j)), format!("{} depends on {} (rejected: changed output) and was never started, but ends as {} ({})", j, r, rep.disposition(j), rep.state_str(j))));
+                }
+            }
+        }
+    }
     // ---- C08: failed work is never recorded as done
     for j in rep.failed.iter().chain(rep.running_at_abort.iter()) {
         if hout.contains_key(j) || hout.contains_key(&format!("{}!!!", j)) {
             viols.push(mk("C08", "failed-job-has-records", format!("{}:{}", kc(j), rep.disposition(j)), format!("failed/aborted-while-running {} has own records in the returned history", j)));
+            if rep.rejected.contains(j) {
+                viols.push(mk("C16", "rejected-ephemeral-has-records", "".into(), format!("{} reported a changed output and was rejected, but the returned history has own records for it", j)));
+            }
         }
         // every record "<x>!!!j" - also under historical / absent upstream ids - is exactly as before;
         // only the record of a dependency between two present jobs that was removed may be dropped (C18)
@@ -920,18 +1049,60 @@ pub struct ChainState {
     pub violated: bool,
     pub prev_interrupted_or_edited: bool,
     pub prev_had_failure_with_history: bool,
+    pub export: Vec<String>,
 }
 impl ChainState {
     pub fn new() -> Self {
-        ChainState { trace: vec![], summaries: vec![], violated: false, prev_interrupted_or_edited: false, prev_had_failure_with_history: false }
+        ChainState { trace: vec![], summaries: vec![], violated: false, prev_interrupted_or_edited: false, prev_had_failure_with_history: false, export: vec![] }
     }
+}
+
+fn jmap(h: &History) -> String {
+    let b: BTreeMap<&String, &String> = h.iter().collect();
+    jobj(&b.iter().map(|(k, v)| ((*k).clone(), jstr(v))).collect::<Vec<_>>())
+}
+
+/// one primary evaluation as a JSON object: everything the PyO3 boundary replay needs
+pub fn export_eval(g: &Graph, step: usize, h_in: &History, disk_before: &BTreeMap<String, String>, plan: &Plan, rep: &Report, exp: &Expect) -> String {
+    let nodes: Vec<String> = g
+        .nodes
+        .iter()
+        .map(|n| {
+            jobj(&[
+                ("id".to_string(), jstr(&n.id)),
+                ("kind".to_string(), jstr(match n.kind {
+                    JobKind::Always => "Always",
+                    JobKind::Output => "Output",
+                    JobKind::Ephemeral => "Ephemeral",
+                })),
+                ("outs".to_string(), jarr(&n.outs.iter().map(|x| jstr(x)).collect::<Vec<_>>())),
+                ("inputs".to_string(), jarr(&n.inputs.iter().map(|x| jstr(x)).collect::<Vec<_>>())),
+            ])
+        })
+        .collect();
+    let edges: Vec<String> = g.edges.iter().map(|e| format!("[{},{}]", jstr(&e.down), jstr(&e.up))).collect();
+    let mut exec: Vec<&String> = exp.executed.iter().collect();
+    exec.sort();
+    jobj(&[
+        ("step".to_string(), step.to_string()),
+        ("nodes".to_string(), jarr(&nodes)),
+        ("edges".to_string(), jarr(&edges)),
+        ("h_in".to_string(), jmap(h_in)),
+        ("disk_before".to_string(), jarr(&disk_before.keys().map(|x| jstr(x)).collect::<Vec<_>>())),
+        ("plan".to_string(), jstr(&plan.brief())),
+        ("faulty".to_string(), (rep.interrupted() || !rep.errors.is_empty()).to_string()),
+        ("rust_errors".to_string(), rep.errors.len().to_string()),
+        ("expected_executed".to_string(), jarr(&exec.iter().map(|x| jstr(x)).collect::<Vec<_>>())),
+        ("trace".to_string(), jarr(&rep.trace)),
+        ("h_out".to_string(), rep.history_out.as_ref().map(jmap).unwrap_or_else(|| "null".to_string())),
+    ])
 }
 
 /// Run one chain; returns per-evaluation summaries (for the C15 metamorphic comparison).
 pub fn run_chain(seed: u64, cfg: &ChainCfg, acc: &mut Acc) -> ChainOutcome {
     let mut grng = Rng::derive(seed, &[1]);
     let mut p = Project::new(&mut grng, cfg);
-    let len = 2 + grng.below(6);
+    let len = if cfg.long { 8 + grng.below(13) } else { 2 + grng.below(6) };
     let mut st = ChainState::new();
     acc.cases += 1;
     for step in 0..len {
@@ -953,7 +1124,7 @@ pub fn run_chain(seed: u64, cfg: &ChainCfg, acc: &mut Acc) -> ChainOutcome {
     if cfg.verbose {
         println!("{}", st.trace.join(""));
     }
-    ChainOutcome { summaries: st.summaries, violated: st.violated }
+    ChainOutcome { summaries: st.summaries, violated: st.violated, export: st.export }
 }
 
 /// One monitored evaluation of a chain plus its twins and offline checkers. Returns false when the chain must stop.
@@ -963,6 +1134,7 @@ pub fn eval_step(p: &mut Project, cfg: &ChainCfg, seed: u64, step: usize, edits:
     let mut prng = Rng::derive(seed, &[5, step as u64]);
     {
         plan.misuse = cfg.misuse.clone();
+        plan.trace = cfg.export;
         let disk_before = p.world.borrow().disk.clone();
         if p.history.is_empty() {
             // history lost (or first evaluation): there is nothing an earlier success could vouch with
@@ -984,7 +1156,15 @@ pub fn eval_step(p: &mut Project, cfg: &ChainCfg, seed: u64, step: usize, edits:
                 .shadow
                 .rec
                 .iter()
-                .filter(|(id, r)| p.g.node(id).is_none() && r.consumed_from.iter().any(|(name, up)| producer.get(name.as_str()).map(|cur| cur != up).unwrap_or(false)))
+                .filter(|(id, r)| {
+                    p.g.node(id).is_none()
+                        && r.consumed_from.iter().any(|(name, up)| {
+                            // the name is produced under another id now, or the id it was consumed from is superseded
+                            // (one of its other parts is produced by a present job of a different name)
+                            producer.get(name.as_str()).map(|cur| cur != up).unwrap_or(false)
+                                || (p.g.node(up).is_none() && up.split(":::").any(|part| producer.get(part).map(|cur| cur != up).unwrap_or(false)))
+                        })
+                })
                 .map(|(id, _)| id.clone())
                 .collect();
             for id in absent_renamed {
@@ -1016,6 +1196,15 @@ pub fn eval_step(p: &mut Project, cfg: &ChainCfg, seed: u64, step: usize, edits:
             }
         }
         let h_in = p.history.clone();
+        {
+            let flipped: Vec<&Node> = p.g.nodes.iter().filter(|n| h_in.contains_key(&n.id) && p.kind_at_record.get(&n.id).map(|k| *k != n.kind).unwrap_or(false)).collect();
+            if !flipped.is_empty() {
+                acc.count("evals_with_own_record_from_another_kind", 1);
+                if flipped.iter().any(|n| n.kind == JobKind::Ephemeral && exp.uptodate.get(&n.id).cloned().unwrap_or(false)) {
+                    acc.count("evals_with_output_turned_ephemeral_still_up_to_date", 1);
+                }
+            }
+        }
         let rep = evaluate(&p.g, &h_in, &p.world, &plan, mode, &mut p.stamp, Chooser::Random(Rng::new(plan.sched_seed)), Some(&exp.uptodate));
         acc.evaluations += 1;
         acc.primary += 1;
@@ -1033,6 +1222,9 @@ pub fn eval_step(p: &mut Project, cfg: &ChainCfg, seed: u64, step: usize, edits:
             rep.history_out.as_ref().map(hist_str).unwrap_or_else(|| "NONE".into())
         ));
         let case_hash = fnv(&format!("{}|{}|{:?}|{}", p.g.describe(), hist_str(&h_in), disk_before, plan.brief()));
+        if cfg.export {
+            st.export.push(export_eval(&p.g, step, &h_in, &disk_before, &plan, &rep, &exp));
+        }
         let started = rep.started_set();
         let mut all_viols: Vec<(Violation, &'static str)> = rep.violations.iter().cloned().map(|v| (v, "")).collect();
         let consumed = p.g.consumed();
@@ -1282,6 +1474,13 @@ pub fn eval_step(p: &mut Project, cfg: &ChainCfg, seed: u64, step: usize, edits:
                 acc.nontrivial("C18", case_hash);
             }
         }
+        if mode == CmpMode::Stamped && rep.history_out.is_some() {
+            let n = p.g.nodes.iter().filter(|n| exp.textdiff.contains(&n.id) && !started.contains(&n.id) && rep.disposition(&n.id) == "skip").count();
+            if n > 0 {
+                acc.count("c15_skipped_jobs_with_textually_different_unaltered_records", n as u64);
+                acc.nontrivial("C15", case_hash);
+            }
+        }
         if rep.aborted && (rep.abort_had_offered > 0 || rep.abort_had_running > 0) {
             acc.nontrivial("C10", fnv(&format!("{}{:?}", case_hash, rep.choices)));
             if rep.abort_had_offered > 0 {
@@ -1331,6 +1530,8 @@ pub fn eval_step(p: &mut Project, cfg: &ChainCfg, seed: u64, step: usize, edits:
         }
         acc.max("max_parallel_seen", rep.max_running as u64);
         acc.max("max_signal_depth", rep.max_depth as u64);
+        acc.max("max_signals_per_call", rep.max_signals);
+        acc.max("max_signals_per_call_x100_per_size", rep.max_signals * 100 / (p.g.nodes.len() as u64 + p.g.edges.len() as u64 + 1));
         acc.max("max_jobs", p.g.nodes.len() as u64);
         acc.count("observations", rep.observations as u64);
         if rep.aborted {
@@ -1385,6 +1586,7 @@ pub fn eval_step(p: &mut Project, cfg: &ChainCfg, seed: u64, step: usize, edits:
         }
         for (j, out) in rep.succeeded.iter() {
             if !rep.failed.contains(j) {
+                p.kind_at_record.insert(j.clone(), p.g.kind(j));
                 p.tainted.remove(j);
                 p.shadow.dirty.remove(j);
                 p.shadow.rec.insert(
